@@ -40,6 +40,12 @@ def check(run, prog, tier):
     run.rule("C17-B", "short-exponential population steps: Taylor scheme, sum conserved iff columns sum to zero", minimum=9)
     run.rule("C17-C", "propagation matrix: identity start, matrix exponential defined for every rate matrix, recurrence, offset once", minimum=7)
     run.rule("C17-D", "initial populations and the rate matrix are not mutated (also not through views of them)", minimum=6)
+    run.rule("C17-H", "a time axis that was moved is still one axis: its array of points and its (start, step) description moved by "
+                      "the same amount (rule of C13-G): the sub-axis test of get_PropagationMatrix reads the points, the offset of "
+                      "the first step is computed from the starts", minimum=2)
+    from . import axisrule
+    axisrule.check(run, prog, "C17-H", "get_PropagationMatrix decides from the points whether the axis is a sub-axis and from the "
+                                        "starts how far the first requested time lies from the propagator's first time")
     rule_A(run, prog)
     rule_A2(run, prog)
     rule_A3(run, prog)
